@@ -183,8 +183,9 @@ func (v *Vue) loadCachedWithFrontMatter(filename string) (map[string]any, []*htm
 
 	v.templateMu.RLock()
 	cached, ok := v.templateCache[filename]
-	if ok && !statFailed && (currentModTime.IsZero() || cached.modTime.Equal(currentModTime)) {
-		// Cache hit and file hasn't changed (or we can't check mtime)
+	if ok && !statFailed && cached.modTime.Equal(currentModTime) {
+		// Cache hit and file hasn't changed (a file system without modification times reports
+		// the zero time for every version: there the cache cannot tell, and keeps answering)
 		v.templateMu.RUnlock()
 		return cached.frontMatter, cached.dom, nil
 	}
